@@ -139,6 +139,9 @@ def gen(rng, tier):
     import tlsgen
     for _ in range(150 if tier == "quick" else 4000):
         cs.append(Case(tlsgen.tlsconn_line(rng), kind="tlsconn", nsan=1))
+    # … and by tlsconnect, to the home server the proxy itself connects to
+    for _ in range(150 if tier == "quick" else 4000):
+        cs.append(Case(tlsgen.tlsdial_line(rng), kind="tlsdial", nsan=1))
     return cs
 
 
